@@ -270,7 +270,11 @@ def judge(prog, impl, tables, schedule, max_steps, bug_models=(), ref_kwargs=Non
                     # one bug repaired no longer reproduces the implementation
                     v3, _, _ = attempt({"rvltl": True, "rvltl_nobug": True})
                     if v3 in ("ok", "pinned"):
-                        continue
+                        # reproduced even with the index range repaired: another
+                        # deficiency of rv_ltl's compositional evaluation (`until` commits
+                        # to the first position whose right operand is truthy *now*)
+                        finding = "rvltl_compositional"
+                        break
                 finding = b
                 break
     return verdict, info, ref, finding
